@@ -171,6 +171,13 @@ def strategy_for(name):
             spec["explicit_reference"] = True
             return spec
         return sw
+    if name in ("iw", "rowdenoise"):
+        @st.composite
+        def sm(draw, tier):
+            spec = draw(fam.strategy(tier))
+            spec["storage"] = draw(st.sampled_from(["csr", "csc_unsorted", "csr_zeros"]))    # non-canonical storages reach the kernels too
+            return spec
+        return sm
     return lambda tier: fam.strategy(tier)
 
 
